@@ -156,13 +156,26 @@ def show(out):
     return "ok " + tok(v)
 
 
-def validator_matrix(ctx, cv, model, VP):
-    for vd in VALIDATORS:
-        for item in VALUES:
+def validator_matrix(ctx, cv, model, VP, r):
+    """every validator on every value, twice: in table order and then shuffled - the verdict for a (validator, value)
+    must not depend on what was validated before (caches, shared mutable state)"""
+    first = {}
+    pairs = [(vd, i) for vd in VALIDATORS for i in range(len(VALUES))]
+    second = list(pairs)
+    r.shuffle(second)
+    for rnd, order in enumerate((pairs, second)):
+        for vd, idx in order:
+            item = VALUES[idx]
             case = {"kind": "item", "validator": vd, "item": tok(item)}
             res = outcome(lambda: cv.validate_item(copy.deepcopy(item), vd, VP))
             plain = isinstance(item, (int, float, str, bool)) and res[0] == "ok" and type(res[1]) is type(item) and res[1] == item
-            ctx.evaluated(case, not plain, sample=len(ctx.samples) < 3)
+            if rnd == 0:
+                ctx.evaluated(case, not plain, sample=len(ctx.samples) < 3)
+                first[(vd, idx)] = show(res)
+            else:
+                ctx.evaluated(dict(case, order="shuffled"), not plain, sample=False)
+                if show(res) != first[(vd, idx)]:
+                    ctx.fail("history-dependent:%s" % vd.split("(")[0], case, {"first": first[(vd, idx)], "later": show(res)})
             ctx.count("validator_" + vd.split("(")[0])
             ctx.count("item_" + res[0].split(":")[0])
             if res[0] == "ok":
@@ -353,7 +366,7 @@ def run(ctx):
     try:
         cv = vm.machine.config_validator
         VP = ValidationPath(ValidationPath(None, "verif"), "item")
-        validator_matrix(ctx, cv, model, VP)
+        validator_matrix(ctx, cv, model, VP, ctx.rng("matrix"))
         time_strings(ctx, model, ctx.rng("time"), ctx.n(600, 20000))
         section_cases(ctx, vm, model, ctx.rng("sections"), ctx.n(500, 6000))
     finally:
@@ -378,7 +391,11 @@ def replay(ctx, rep):
         return
     vm = VMachine("switches:\n  s1:\n    number: 1\n").start()
     try:
-        if c["kind"] == "item":
+        if str(rep.get("signature", "")).startswith("history-dependent"):
+            # needs the history: replay the whole two-pass matrix
+            VP = ValidationPath(ValidationPath(None, "verif"), "item")
+            validator_matrix(ctx, vm.machine.config_validator, None, VP, ctx.rng("matrix"))
+        elif c["kind"] == "item":
             item = untok(c["item"])
             VP = ValidationPath(ValidationPath(None, "verif"), "item")
             res = outcome(lambda: vm.machine.config_validator.validate_item(item, c["validator"], VP))
